@@ -306,6 +306,20 @@ func gen(t *rapid.T) Case {
 		ops = append(ops, projsim.Op{Kind: "build", T: rapid.IntRange(0, 11).Draw(t, "qy")})
 		ops = append(ops, projsim.Op{Kind: "build", T: x, Owner: owner})
 	}
+	if rapid.IntRange(0, 3).Draw(t, "pattern3") == 3 {
+		// one source edited twice with near-identical contents (same head, same tail, same length, same
+		// bytes in another order), its owner built after each edit
+		a, i := rapid.IntRange(0, 11).Draw(t, "ra"), rapid.IntRange(0, 11).Draw(t, "ri")
+		pair := rapid.SampledFrom([][2]string{
+			{strings.Repeat("shared prefix 0123456789 ", 8) + "A\n", strings.Repeat("shared prefix 0123456789 ", 8) + "B\n"},
+			{strings.Repeat("x", 100) + "A" + strings.Repeat("y", 100), strings.Repeat("x", 100) + "B" + strings.Repeat("y", 100)},
+			{"ab\n", "ba\n"}, {"a\n", "a\r\n"}, {"data", "data\x00"}, {"one\n", "one\ntwo\n"},
+		}).Draw(t, "rpair")
+		ops = append(ops, projsim.Op{Kind: "src-new", T: a, I: i, S: pair[0]})
+		ops = append(ops, projsim.Op{Kind: "build", T: a, Owner: true})
+		ops = append(ops, projsim.Op{Kind: "src-new", T: a, I: i, S: pair[1]})
+		ops = append(ops, projsim.Op{Kind: "build", T: a, Owner: true})
+	}
 	ops = append(ops, projsim.GenBuild(t, false, false, false))
 	return Case{M: m, Ops: ops}
 }
